@@ -311,6 +311,45 @@ class World:
             self._run_inv(inv, W.ctx(rname))
         return run
 
+    def ppworker(self, rname: str, polls: int) -> Callable[[], None]:
+        """The REAL worker loop of the persistent process runner (`persistent_process_main`), executed in this
+        process: it polls one invocation at a time and runs it, until its stop event is set (here: after `polls`
+        looks at the event).  Signal handlers cannot be installed outside the main thread: that call is a no-op."""
+        import types
+        from pynenc.runner import persistent_process_runner as ppr
+        from pynenc.runner.runner_context import RunnerContext
+
+        class _Stop:
+            def __init__(self, n: int) -> None:
+                self.n, self.flag = n, False
+
+            def is_set(self) -> bool:
+                self.n -= 1
+                return self.flag or self.n < 0
+
+            def set(self) -> None:
+                self.flag = True
+
+        def run() -> None:
+            real_signal = ppr.signal
+            ppr.signal = types.SimpleNamespace(SIGTERM=real_signal.SIGTERM, SIG_IGN=real_signal.SIG_IGN,
+                                               signal=lambda *a, **k: None)
+            parent = RunnerContext("PersistentProcessRunner", f"{rname}-parent")
+            runner = ppr.PersistentProcessRunner(self.app, runner_context=parent)      # not started: no processes
+            self.app._runner_instance = runner
+            self.rec.ghost("poll_start", runner=rname, n=1)
+            try:
+                ppr.persistent_process_main(self.app, runner_cache={}, stop_event=_Stop(polls),
+                                            parent_runner_ctx_json=parent.to_json(), child_runner_id=rname)
+                self.rec.ghost("poll_end", runner=rname, ok=True)
+            except sched.ActorKilled:
+                raise
+            except Exception as ex:
+                self.rec.emit("poll_end", {"runner": rname}, {"err": instrument.err_class(ex)})
+            finally:
+                ppr.signal = real_signal
+        return run
+
     def finisher(self, rname: str, inv_name: str) -> Callable[[], None]:
         """The owner of a RUNNING invocation completes it (result, then SUCCESS); status errors are swallowed
         the way DistributedInvocation.run swallows them."""
@@ -391,6 +430,8 @@ class World:
             return f"w:{spec[1]}:{spec[2]}", self.worker(spec[1], spec[2]), "worker"
         if kind == "finisher":
             return f"w:{spec[1]}:{spec[2]}", self.finisher(spec[1], spec[2]), "worker"
+        if kind == "ppworker":
+            return f"pp:{spec[1]}", self.ppworker(spec[1], spec[2]), "poller"
         if kind == "kill_reroute":
             return f"s:{spec[1]}", self.kill_reroute(spec[1], spec[2]), "stopper"
         raise ValueError(spec)
